@@ -24,7 +24,7 @@ pub fn scenarios() -> Vec<Scenario> {
         name: "c14-faults",
         gen,
         run,
-        quick_runs: 60_000,
+        quick_runs: 30_000,
         weight: 1,
         rule: "case = (valid packet, schedule around the fault), evaluated at every fault position (all for <= 2,048 bytes, field boundaries +-2 beyond) x {read error kind, EOF, write error kind, zero write}; non-trivial when the encoding has >= 3 bytes; distinct by case hash",
     }]
@@ -57,7 +57,8 @@ pub fn gen(rng: &mut Rng, tier: Tier, idx: u64) -> Case {
     let (ws, wt) = gen_write_script(rng, len, wp, 0);
     c.write_script = ws;
     c.write_tail = wt;
-    c.n = vec![rng.below(9) as i64];
+    c.writer_style = rng.below(2) as u8;
+    c.n = vec![rng.below(11) as i64];
     c
 }
 
@@ -163,7 +164,7 @@ fn run_g<C: Codec>(c: &Case, trace: bool) -> RunOut {
         let (fault, expect_kind) = if (i + rot) % 5 == 0 {
             (Fault::Zero, io::ErrorKind::WriteZero)
         } else {
-            let kid = ((i + rot) % KINDS.len()) as u8;
+            let kid = write_kind_id(((i + rot) % KINDS.len()) as u8);
             (Fault::Err(kid), kind_of(kid))
         };
         let core = Core::new(trace);
@@ -212,7 +213,7 @@ fn run_g<C: Codec>(c: &Case, trace: bool) -> RunOut {
             let (fault, expect_kind) = if (i + rot) % 5 == 0 {
                 (Fault::Zero, io::ErrorKind::WriteZero)
             } else {
-                let kid = ((i + rot) % KINDS.len()) as u8;
+                let kid = write_kind_id(((i + rot) % KINDS.len()) as u8);
                 (Fault::Err(kid), kind_of(kid))
             };
             let core = Core::new(trace);
